@@ -870,27 +870,27 @@ Proof.
   - simpl in H. apply andb_true_iff in H. destruct H as [H Hat]. apply andb_true_iff in H.
     destruct H as [Hs Hf]. apply str_eqb_eq in Hs. subst.
     change (plain ((114 :: rs) ++ [46] ++ f ++ dots attrs) = true).
-    rewrite !plain_app. rewrite plain_good, plain_dots by auto.
+    rewrite !plain_app. rewrite (plain_good f), (plain_dots attrs) by auto.
     rewrite (plain_words (114 :: rs)) by (simpl; apply digits_are_words; auto). reflexivity.
   - simpl in H. apply andb_true_iff in H. destruct H as [Hs Hf]. apply str_eqb_eq in Hs. subst.
     change (plain ((112 :: ps) ++ [46] ++ f) = true).
-    rewrite !plain_app. rewrite plain_good by auto.
+    rewrite !plain_app. rewrite (plain_good f) by auto.
     rewrite (plain_words (112 :: ps)) by (simpl; apply digits_are_words; auto). reflexivity.
   - simpl in H. apply andb_true_iff in H. destruct H as [Hs Hf]. apply str_eqb_eq in Hs. subst.
     change (plain (s_eval_lp ++ (112 :: ps) ++ [46] ++ f ++ [41]) = true).
-    rewrite !plain_app. rewrite plain_good by auto.
+    rewrite !plain_app. rewrite (plain_good f) by auto.
     rewrite (plain_words (112 :: ps)) by (simpl; apply digits_are_words; auto). reflexivity.
   - simpl in H. unfold lit_ok in H. apply andb_true_iff in H. destruct H as [H _].
     apply andb_true_iff in H. destruct H as [H _].
     change (plain ([quote_of dq] ++ s ++ [quote_of dq]) = true).
-    rewrite !plain_app. rewrite plain_lits by auto. destruct dq; reflexivity.
+    rewrite !plain_app. rewrite (plain_lits s) by auto. destruct dq; reflexivity.
   - simpl in H. unfold digits_ok in H. apply andb_true_iff in H. destruct H as [H _].
     apply andb_true_iff in H. destruct H as [_ H]. apply plain_words. apply digits_are_words; auto.
   - apply plain_good; auto.
   - simpl in H. apply andb_true_iff in H. destruct H as [Hx Hat].
-    rewrite plain_app, plain_good, plain_dots; auto.
+    rewrite plain_app, (plain_good x), (plain_dots attrs); auto.
   - simpl in H. change (plain (s_eval_lp ++ x ++ [41]) = true).
-    rewrite !plain_app, plain_good; auto.
+    rewrite !plain_app, (plain_good x); auto.
 Qed.
 
 Lemma plain_blanks : forall a, forallb is_blank a = true -> plain a = true.
@@ -956,7 +956,7 @@ Proof.
     + rewrite (Hsel t Hs). cbn [app]. rewrite rsub_op_hit.
       rewrite rsub_op_copy by (apply plain_no; auto; apply plain_blanks; auto).
       rewrite IH by auto. rewrite render_cons. subst rep.
-      norm_lastc. rewrite (Hsel t Hs). norm_lastc.
+      norm_lastc.
       rewrite <- ?app_assoc. cbn [app]. rewrite <- ?app_assoc. reflexivity.
     + rewrite (rsub_op_copy x rep (text t)).
       2:{ destruct (op_tok t) eqn:Hop; [apply Hops; auto|].
@@ -964,4 +964,1242 @@ Proof.
       rewrite rsub_op_copy by (apply plain_no; auto; apply plain_blanks; auto).
       rewrite IH by auto. rewrite render_cons. norm_lastc.
       rewrite <- ?app_assoc. reflexivity.
+Qed.
+
+(* ---- ! *)
+Lemma m_not_other : forall prev c s, (c =? 33) = false -> m_not prev (c :: s) = None.
+Proof. intros. unfold m_not. rewrite H. reflexivity. Qed.
+
+Lemma rsub_not_copy : forall a rest prev, forallb (fun c => negb (c =? 33)) a = true ->
+  rsub m_not prev 0 (a ++ rest) = a ++ rsub m_not (lastc a prev) 0 rest.
+Proof.
+  intros. apply (rsub_copy m_not (fun c => c =? 33)); auto.
+  intros. apply m_not_other; auto.
+Qed.
+
+Lemma rsub_not_hit : forall rest prev, hd_is (N.eqb 61) rest = false ->
+  rsub m_not prev 0 (33 :: rest) = s_not_pad ++ rsub m_not (Some 33) 0 rest.
+Proof. intros. cbn [rsub]. unfold m_not at 1. rewrite N.eqb_refl, H. reflexivity. Qed.
+
+Lemma rsub_not_ne : forall rest prev,
+  rsub m_not prev 0 (33 :: 61 :: rest) = 33 :: 61 :: rsub m_not (Some 61) 0 rest.
+Proof. intros. cbn [rsub]. unfold m_not at 1 2. cbn. reflexivity. Qed.
+
+Lemma hd_eq_cmp : forall rs ps t, wf_tok rs ps t = true ->
+  hd_is (N.eqb 61) (text t) = true -> is_cmp t = true.
+Proof.
+  intros rs ps t H Hh. destruct t; cbn [text] in Hh; try discriminate; auto.
+  - destruct dq; discriminate.
+  - simpl in H. unfold digits_ok in H. apply andb_true_iff in H. destruct H as [H _].
+    apply andb_true_iff in H. destruct H as [_ H]. destruct ds as [|d ds]; [discriminate|].
+    cbn [hd_is] in Hh. cbn [forallb] in H. apply andb_true_iff in H. destruct H as [Hd _].
+    apply N.eqb_eq in Hh. subst d. discriminate.
+  - simpl in H. destruct (good_name_facts _ H) as (_ & _ & Ha & _).
+    destruct s as [|c s]; [discriminate|]. cbn [hd_is] in *. apply N.eqb_eq in Hh. subst c. discriminate.
+  - simpl in H. apply andb_true_iff in H. destruct H as [H _].
+    destruct (good_name_facts _ H) as (_ & _ & Ha & _).
+    destruct x as [|c x]; [discriminate|]. cbn [hd_is app] in *. apply N.eqb_eq in Hh. subst c. discriminate.
+Qed.
+
+Lemma hd_is_app_nonempty : forall p a b, a <> [] -> hd_is p (a ++ b) = hd_is p a.
+Proof. destruct a; intros; [congruence|reflexivity]. Qed.
+
+Lemma hd_blank_not_eq : forall a, forallb is_blank a = true -> hd_is (N.eqb 61) a = false.
+Proof.
+  destruct a as [|c a]; simpl; auto. intro H. apply andb_true_iff in H. destruct H as [H _].
+  unfold is_blank in H. apply orb_true_iff in H. destruct H as [E|E]; apply N.eqb_eq in E; subst; reflexivity.
+Qed.
+
+Lemma hd_after_op : forall rs ps a t b pcs rest,
+  adm ((a, t, b) :: pcs) = true -> forallb (wf_tok rs ps) (toks pcs) = true ->
+  opish t = true -> hd_is (N.eqb 61) rest = false ->
+  hd_is (N.eqb 61) (b ++ render_pieces pcs ++ rest) = false.
+Proof.
+  intros rs ps a t b pcs rest Hadm Hwf Hop Hrest.
+  destruct (adm_cons _ _ _ _ Hadm) as (Ha & Hb & Hr & Hgap).
+  destruct b as [|c b].
+  2:{ rewrite hd_is_app_nonempty by discriminate. apply hd_blank_not_eq; auto. }
+  cbn [app]. destruct pcs as [|[[a' t'] b'] r]; [exact Hrest|].
+  rewrite render_cons. rewrite <- !app_assoc.
+  destruct (adm_cons _ _ _ _ Hr) as (Ha' & _).
+  destruct a' as [|c a'].
+  2:{ rewrite hd_is_app_nonempty by discriminate. apply hd_blank_not_eq; auto. }
+  cbn [app]. cbn [toks map tok_of fst snd forallb] in Hwf. apply andb_true_iff in Hwf. destruct Hwf as [Hwt _].
+  rewrite hd_is_app_nonempty by (eapply text_nonempty; eauto).
+  destruct (hd_is (N.eqb 61) (text t')) eqn:E; auto.
+  apply (hd_eq_cmp rs ps) in E; auto.
+  unfold gap_ok in Hgap. rewrite Hop, E in Hgap. rewrite andb_false_r in Hgap. discriminate.
+Qed.
+
+Lemma not_render : forall rs ps,
+  forallb is_digit rs = true -> forallb is_digit ps = true ->
+  forall pcs prev rest, adm pcs = true -> forallb (wf_tok rs ps) (toks pcs) = true ->
+  hd_is (N.eqb 61) rest = false ->
+  rsub m_not prev 0 (render_pieces pcs ++ rest)
+  = render_pieces (map (pad_piece sel_not TKNot) pcs)
+    ++ rsub m_not (lastc (render_pieces pcs) prev) 0 rest.
+Proof.
+  intros rs ps Hrs Hps.
+  assert (H33 : special 33 = true) by reflexivity.
+  induction pcs as [|[[a t] b] pcs IH]; intros prev rest Hadm Hwf Hrest.
+  - reflexivity.
+  - cbn [toks map tok_of fst snd forallb] in Hwf. apply andb_true_iff in Hwf. destruct Hwf as [Hwt Hwf].
+    destruct (adm_cons _ _ _ _ Hadm) as (Ha & Hb & Hr & Hgap).
+    cbn [map pad_piece]. rewrite render_cons. rewrite <- !app_assoc.
+    rewrite rsub_not_copy by (apply plain_no; auto; apply plain_blanks; auto).
+    destruct (op_tok t) eqn:Hop.
+    + destruct t; try discriminate Hop; cbn [sel_not text].
+      * (* TAnd *) rewrite (rsub_not_copy [38; 38]) by reflexivity.
+        rewrite rsub_not_copy by (apply plain_no; auto; apply plain_blanks; auto).
+        rewrite IH by auto. rewrite render_cons. norm_lastc. cbn [text]. rewrite <- ?app_assoc. reflexivity.
+      * (* TOr *) rewrite (rsub_not_copy [124; 124]) by reflexivity.
+        rewrite rsub_not_copy by (apply plain_no; auto; apply plain_blanks; auto).
+        rewrite IH by auto. rewrite render_cons. norm_lastc. cbn [text]. rewrite <- ?app_assoc. reflexivity.
+      * (* TNot *) cbn [app]. rewrite rsub_not_hit by (eapply hd_after_op; eauto).
+        rewrite rsub_not_copy by (apply plain_no; auto; apply plain_blanks; auto).
+        rewrite IH by auto. rewrite render_cons. norm_lastc. cbn [text].
+        rewrite <- ?app_assoc. cbn [app]. rewrite <- ?app_assoc. reflexivity.
+      * (* TCmp CNe *) destruct c; try discriminate Hop. cbn [app]. rewrite rsub_not_ne.
+        rewrite rsub_not_copy by (apply plain_no; auto; apply plain_blanks; auto).
+        rewrite IH by auto. rewrite render_cons. norm_lastc. cbn [text]. rewrite <- ?app_assoc. reflexivity.
+    + assert (Hsel : sel_not t = false) by (destruct t; auto; discriminate).
+      rewrite Hsel.
+      rewrite (rsub_not_copy (text t)) by (apply plain_no; auto; apply (text_plain rs ps); auto).
+      rewrite rsub_not_copy by (apply plain_no; auto; apply plain_blanks; auto).
+      rewrite IH by auto. rewrite render_cons. norm_lastc. rewrite <- ?app_assoc. reflexivity.
+Qed.
+
+(* ---- admissibility and well-formedness survive the padding maps *)
+Lemma adm_intro : forall a t b ps,
+  forallb is_blank a = true -> forallb is_blank b = true -> adm ps = true ->
+  match ps with (a', t', _) :: _ => gap_ok t (b ++ a') t' = true | [] => True end ->
+  adm ((a, t, b) :: ps) = true.
+Proof.
+  intros a t b ps Ha Hb Hr Hg. cbn [adm]. rewrite Ha, Hb, Hr.
+  destruct ps as [|[[a' t'] b'] r]; auto. rewrite Hg. reflexivity.
+Qed.
+
+Lemma blanks_snoc : forall a, forallb is_blank a = true -> forallb is_blank (a ++ [32]) = true.
+Proof. intros. rewrite forallb_app_iff, H. reflexivity. Qed.
+
+Lemma gap_nonempty : forall t g t', g <> [] -> opish t && is_cmp t' = false -> gap_ok t g t' = true.
+Proof.
+  intros. unfold gap_ok. rewrite H0. destruct g; [congruence|]. reflexivity.
+Qed.
+
+Lemma adm_pad : forall sel kw, is_cmp kw = false -> opish kw = false ->
+  forall pcs, adm pcs = true -> adm (map (pad_piece sel kw) pcs) = true.
+Proof.
+  intros sel kw Hc Ho. induction pcs as [|[[a t] b] pcs IH]; intro Hadm; auto.
+  destruct (adm_cons _ _ _ _ Hadm) as (Ha & Hb & Hr & Hgap).
+  specialize (IH Hr). cbn [map]. 
+  destruct pcs as [|[[a' t'] b'] r].
+  - cbn [map]. unfold pad_piece. destruct (sel t).
+    + apply adm_intro; auto using blanks_snoc.
+    + apply adm_intro; auto.
+  - cbn [map] in *.
+    assert (Hnext : exists a2 t2 b2, pad_piece sel kw (a', t', b') = (a2, t2, b2)
+              /\ ((sel t' = true /\ a2 = a' ++ [32] /\ t2 = kw) \/ (sel t' = false /\ a2 = a' /\ t2 = t'))).
+    { unfold pad_piece. destruct (sel t'); eexists _, _, _; split; eauto. }
+    destruct Hnext as (a2 & t2 & b2 & Eq & Hcase). rewrite Eq in *.
+    unfold pad_piece. destruct (sel t) eqn:E1.
+    + apply adm_intro; [apply blanks_snoc; auto | cbn; exact Hb | exact IH | ].
+      apply gap_nonempty; [discriminate|]. rewrite Ho. reflexivity.
+    + apply adm_intro; [exact Ha | exact Hb | exact IH | ].
+      destruct Hcase as [(E2 & -> & ->) | (E2 & -> & ->)]; auto.
+      apply gap_nonempty.
+      * destruct b; [destruct a'|]; discriminate.
+      * rewrite Hc. apply andb_false_r.
+Qed.
+
+Lemma wf_pad : forall rs ps sel kw pcs, wf_tok rs ps kw = true ->
+  forallb (wf_tok rs ps) (toks pcs) = true ->
+  forallb (wf_tok rs ps) (toks (map (pad_piece sel kw) pcs)) = true.
+Proof.
+  intros rs ps sel kw pcs Hk. induction pcs as [|[[a t] b] pcs IH]; intro H; auto.
+  cbn [toks map tok_of fst snd forallb] in *. apply andb_true_iff in H. destruct H as [Ht H].
+  unfold pad_piece at 1. destruct (sel t); cbn [tok_of fst snd]; rewrite ?Hk, ?Ht; cbn [andb]; apply IH; auto.
+Qed.
+
+(* ---- the three rewrites together *)
+Definition kw_pieces (pcs : list piece) : list piece :=
+  map (pad_piece sel_not TKNot) (map (pad_piece sel_or TKOr) (map (pad_piece sel_and TKAnd) pcs)).
+
+Theorem get_expression_render : forall rs ps pcs,
+  forallb is_digit rs = true -> forallb is_digit ps = true ->
+  adm pcs = true -> forallb (wf_tok rs ps) (toks pcs) = true ->
+  get_expression (render_pieces pcs) = render_pieces (kw_pieces pcs).
+Proof.
+  intros rs ps pcs Hrs Hps Hadm Hwf. unfold get_expression, kw_pieces, m_and, m_or.
+  pose proof (op_render 38 s_and_pad sel_and TKAnd rs ps) as H1.
+  rewrite <- (app_nil_r (render_pieces pcs)).
+  rewrite H1; auto; try reflexivity; try discriminate.
+  2:{ intros t Ht. destruct t; try discriminate. reflexivity. }
+  2:{ intros t Hs Ho. destruct t; try discriminate; try reflexivity. destruct c; try discriminate; reflexivity. }
+  cbn [rsub]. rewrite app_nil_r.
+  set (p1 := map (pad_piece sel_and TKAnd) pcs).
+  assert (A1 : adm p1 = true) by (apply adm_pad; auto).
+  assert (W1 : forallb (wf_tok rs ps) (toks p1) = true) by (apply wf_pad; auto).
+  pose proof (op_render 124 s_or_pad sel_or TKOr rs ps) as H2.
+  rewrite <- (app_nil_r (render_pieces p1)).
+  rewrite H2; auto; try reflexivity; try discriminate.
+  2:{ intros t Ht. destruct t; try discriminate. reflexivity. }
+  2:{ intros t Hs Ho. destruct t; try discriminate; try reflexivity. destruct c; try discriminate; reflexivity. }
+  cbn [rsub]. rewrite app_nil_r.
+  set (p2 := map (pad_piece sel_or TKOr) p1).
+  assert (A2 : adm p2 = true) by (apply adm_pad; auto).
+  assert (W2 : forallb (wf_tok rs ps) (toks p2) = true) by (apply wf_pad; auto).
+  rewrite <- (app_nil_r (render_pieces p2)).
+  rewrite (not_render rs ps); auto.
+  cbn [rsub]. rewrite app_nil_r. reflexivity.
+Qed.
+
+(* ====================================================================== lexing: fuel is irrelevant *)
+Section LexFuel.
+  Variable one : str -> option (tok * str).
+  Hypothesis shrinks : forall s t r, one s = Some (t, r) -> (length r < length s)%nat.
+
+  Lemma lex_fuel_enough : forall n k1 k2 s, (length s <= n)%nat -> (n <= k1)%nat -> (n <= k2)%nat ->
+    lex_fuel one k1 s = lex_fuel one k2 s.
+  Proof.
+    induction n as [|n IH]; intros k1 k2 s Hs H1 H2.
+    - destruct s; [|simpl in Hs; lia]. destruct k1, k2; reflexivity.
+    - destruct s as [|c s]; [destruct k1, k2; reflexivity|].
+      destruct k1 as [|k1]; [lia|]. destruct k2 as [|k2]; [lia|].
+      cbn [lex_fuel]. simpl in Hs.
+      destruct (is_blank c).
+      + apply IH; lia.
+      + destruct (one (c :: s)) as [[t r]|] eqn:E; auto.
+        apply shrinks in E. simpl in E. rewrite (IH k1 k2 r); auto; lia.
+  Qed.
+
+  Lemma lex_nil : lex one [] = Some [].
+  Proof. reflexivity. Qed.
+
+  Lemma lex_blank : forall c s, is_blank c = true -> lex one (c :: s) = lex one s.
+  Proof. intros. unfold lex. cbn [length lex_fuel]. rewrite H. reflexivity. Qed.
+
+  Lemma lex_tok : forall c s t r, is_blank c = false -> one (c :: s) = Some (t, r) ->
+    lex one (c :: s) = option_map (cons t) (lex one r).
+  Proof.
+    intros c s t r Hb Ho. unfold lex. cbn [length lex_fuel]. rewrite Hb, Ho.
+    pose proof (shrinks _ _ _ Ho) as Hl. simpl in Hl.
+    rewrite (lex_fuel_enough (length r) (length s) (length r) r); auto; lia.
+  Qed.
+
+  Lemma lex_blanks : forall a s, forallb is_blank a = true -> lex one (a ++ s) = lex one s.
+  Proof.
+    induction a as [|c a IH]; simpl; intros s H; auto.
+    apply andb_true_iff in H. destruct H as [Hc Ha]. rewrite lex_blank by auto. apply IH; auto.
+  Qed.
+End LexFuel.
+
+Lemma length_tl : forall (s : str), (length (tl s) <= length s)%nat.
+Proof. destruct s; simpl; lia. Qed.
+
+Lemma span_snd_cons : forall p c s, p c = true -> snd (span p (c :: s)) = snd (span p s).
+Proof. intros. simpl. rewrite H. destruct (span p s); reflexivity. Qed.
+
+Lemma lex_op_shrinks : forall c s' t r, lex_op c s' = Some (t, r) -> (length r <= length s')%nat.
+Proof.
+  intros c s' t r H. unfold lex_op in H. pose proof (length_tl s').
+  repeat match type of H with
+         | (if ?b then _ else _) = _ => destruct b
+         end; inversion H; subst; auto; lia.
+Qed.
+
+Lemma lex_int_shrinks : forall c s' t r, is_digit c = true -> lex_int (c :: s') = Some (t, r) ->
+  (length r <= length s')%nat.
+Proof.
+  intros c s' t r Hc H. unfold lex_int in H.
+  pose proof (span_snd_cons is_digit c s' Hc) as E. pose proof (span_length is_digit s') as L.
+  destruct (span is_digit (c :: s')) as [ds rest]. simpl in E. subst rest.
+  destruct (hd_is is_word (snd (span is_digit s')) || hd_is (N.eqb 46) (snd (span is_digit s'))); [discriminate|].
+  destruct (leading_zero ds); inversion H; subst; auto.
+Qed.
+
+Lemma lex_string_shrinks : forall q s body r, lex_string q s = Some (body, r) ->
+  (length r <= length s)%nat.
+Proof.
+  intros q s body r H. unfold lex_string in H.
+  pose proof (span_length (fun c => negb (c =? q)) s) as L.
+  destruct (span (fun c => negb (c =? q)) s) as [b rest]. simpl in L.
+  destruct rest as [|x rest']; [discriminate|].
+  destruct (forallb _ b); inversion H; subst. simpl in L. lia.
+Qed.
+
+Lemma py_one_shrinks : forall s t r, py_lex_one s = Some (t, r) -> (length r < length s)%nat.
+Proof.
+  intros s t r H. destruct s as [|c s']; [discriminate|]. unfold py_lex_one in H.
+  destruct (is_alpha c) eqn:Ea.
+  - pose proof (span_snd_cons is_word c s' (alpha_is_word _ Ea)) as E.
+    pose proof (span_length is_word s') as L.
+    destruct (span is_word (c :: s')) as [w rest]. simpl in E. subst rest.
+    destruct (hd_is is_quote (snd (span is_word s'))); inversion H; subst. simpl. lia.
+  - destruct (is_digit c) eqn:Ed.
+    + apply lex_int_shrinks in H; auto. simpl. lia.
+    + destruct (is_quote c).
+      * destruct (lex_string c s') as [[body rest]|] eqn:El; inversion H; subst.
+        apply lex_string_shrinks in El. simpl. lia.
+      * destruct (c =? 46); [inversion H; subst; simpl; lia|].
+        destruct (c =? 33).
+        -- destruct (hd_is (N.eqb 61) s'); inversion H; subst. pose proof (length_tl s'). simpl. lia.
+        -- apply lex_op_shrinks in H. simpl. lia.
+Qed.
+
+(* ====================================================================== py_lex on token texts *)
+Definition L := py_lex.
+
+Lemma L_blanks : forall a s, forallb is_blank a = true -> L (a ++ s) = L s.
+Proof. intros. apply lex_blanks; auto. Qed.
+
+Lemma L_tok : forall c s t r, is_blank c = false -> py_lex_one (c :: s) = Some (t, r) ->
+  L (c :: s) = option_map (cons t) (L r).
+Proof. intros. apply lex_tok; auto. apply py_one_shrinks. Qed.
+
+Definition cmpchar (d : N) : bool := (d =? 61) || (d =? 60) || (d =? 62).
+
+Lemma quote_cases : forall c, is_quote c = true -> c = 34 \/ c = 39.
+Proof. intros c H. unfold is_quote in H. apply orb_true_iff in H. destruct H as [H|H]; apply N.eqb_eq in H; auto. Qed.
+Lemma blank_cases : forall c, is_blank c = true -> c = 32 \/ c = 9.
+Proof. intros c H. unfold is_blank in H. apply orb_true_iff in H. destruct H as [H|H]; apply N.eqb_eq in H; auto. Qed.
+Lemma cmpchar_cases : forall c, cmpchar c = true -> c = 61 \/ c = 60 \/ c = 62.
+Proof.
+  intros c H. unfold cmpchar in H. repeat (apply orb_true_iff in H; destruct H as [H|H]);
+    apply N.eqb_eq in H; auto.
+Qed.
+
+Lemma word_char_facts : forall c, is_word c = true ->
+  is_blank c = false /\ is_quote c = false /\ (c =? 46) = false /\ cmpchar c = false
+  /\ (c =? 33) = false /\ is_space c = false.
+Proof.
+  intros c H. repeat split.
+  - destruct (is_blank c) eqn:E; auto. apply blank_cases in E. destruct E; subst; discriminate.
+  - destruct (is_quote c) eqn:E; auto. apply quote_cases in E. destruct E; subst; discriminate.
+  - destruct (c =? 46) eqn:E; auto. apply N.eqb_eq in E. subst; discriminate.
+  - destruct (cmpchar c) eqn:E; auto. apply cmpchar_cases in E. destruct E as [->|[->| ->]]; discriminate.
+  - destruct (c =? 33) eqn:E; auto. apply N.eqb_eq in E. subst; discriminate.
+  - unfold is_space. destruct ((9 <=? c) && (c <=? 13)) eqn:E.
+    + apply andb_true_iff in E. destruct E as [E1 E2]. apply N.leb_le in E1, E2.
+      unfold is_word, is_alpha, is_digit in H.
+      repeat (apply orb_true_iff in H; destruct H as [H|H]);
+        try (apply andb_true_iff in H; destruct H as [H1 H2]; apply N.leb_le in H1, H2; lia).
+      apply N.eqb_eq in H. lia.
+    + simpl. destruct (c =? 32) eqn:E2; auto. apply N.eqb_eq in E2. subst. discriminate.
+Qed.
+
+Lemma digit_not_alpha : forall c, is_digit c = true -> is_alpha c = false.
+Proof.
+  intros c H. unfold is_digit in H. apply andb_true_iff in H. destruct H as [H1 H2].
+  apply N.leb_le in H1, H2. unfold is_alpha.
+  destruct ((65 <=? c) && (c <=? 90)) eqn:E1.
+  { apply andb_true_iff in E1. destruct E1 as [A B]. apply N.leb_le in A. lia. }
+  destruct ((97 <=? c) && (c <=? 122)) eqn:E2.
+  { apply andb_true_iff in E2. destruct E2 as [A B]. apply N.leb_le in A. lia. }
+  destruct (c =? 95) eqn:E3; auto. apply N.eqb_eq in E3. lia.
+Qed.
+
+(* ---- names and keywords *)
+Definition classify (w : str) : tok :=
+  if str_eqb w s_and then TKAnd else if str_eqb w s_or then TKOr
+  else if str_eqb w s_not then TKNot else if str_eqb w s_in then TIn else TId w.
+
+Lemma L_word : forall w rest, forallb is_word w = true -> hd_is is_alpha w = true ->
+  hd_is is_word rest = false -> hd_is is_quote rest = false ->
+  L (w ++ rest) = option_map (cons (classify w)) (L rest).
+Proof.
+  intros w rest Hw Ha Hr Hq. destruct w as [|c w]; [discriminate|]. cbn [hd_is] in Ha.
+  cbn [app]. rewrite (L_tok c (w ++ rest) (classify (c :: w)) rest).
+  - reflexivity.
+  - apply (word_char_facts c). apply alpha_is_word; auto.
+  - unfold py_lex_one. rewrite Ha.
+    change (c :: w ++ rest) with ((c :: w) ++ rest). rewrite span_all by auto.
+    rewrite Hq. reflexivity.
+Qed.
+
+Lemma mem_false_neq : forall s k l, mem str_eqb s l = false -> In k l -> str_eqb s k = false.
+Proof.
+  induction l as [|x l IH]; simpl; intros H Hin; [contradiction|].
+  apply orb_false_iff in H. destruct H as [H1 H2]. destruct Hin as [->|Hin]; auto.
+Qed.
+
+Lemma classify_good : forall s, good_name s = true -> classify s = TId s.
+Proof.
+  intros s H. destruct (good_name_facts _ H) as (_ & _ & _ & _ & _ & Hk).
+  unfold classify.
+  rewrite (mem_false_neq s s_and py_keywords Hk) by (vm_compute; tauto).
+  rewrite (mem_false_neq s s_or py_keywords Hk) by (vm_compute; tauto).
+  rewrite (mem_false_neq s s_not py_keywords Hk) by (vm_compute; tauto).
+  rewrite (mem_false_neq s s_in py_keywords Hk) by (vm_compute; tauto).
+  reflexivity.
+Qed.
+
+Lemma L_good : forall s rest, good_name s = true ->
+  hd_is is_word rest = false -> hd_is is_quote rest = false ->
+  L (s ++ rest) = option_map (cons (TId s)) (L rest).
+Proof.
+  intros s rest H Hr Hq. destruct (good_name_facts _ H) as (_ & Hw & Ha & _).
+  rewrite L_word by auto. rewrite classify_good by auto. reflexivity.
+Qed.
+
+Lemma L_dot : forall rest, L (46 :: rest) = option_map (cons TDot) (L rest).
+Proof. intros. apply L_tok; reflexivity. Qed.
+
+Lemma option_map_app : forall (x y : list tok) o,
+  option_map (app x) (option_map (app y) o) = option_map (app (x ++ y)) o.
+Proof. intros. destruct o; simpl; auto. rewrite app_assoc. reflexivity. Qed.
+
+Lemma L_dots : forall attrs rest, forallb good_name attrs = true ->
+  hd_is is_word rest = false -> hd_is is_quote rest = false ->
+  L (dots attrs ++ rest)
+  = option_map (app (flat_map (fun a => [TDot; TId a]) attrs)) (L rest).
+Proof.
+  induction attrs as [|a r IH]; intros rest H Hr Hq.
+  - simpl. destruct (L rest); reflexivity.
+  - cbn [forallb] in H. apply andb_true_iff in H. destruct H as [Ha Hr'].
+    cbn [dots flat_map]. fold (dots r). cbn [app]. rewrite <- app_assoc.
+    rewrite L_dot. rewrite L_good; auto.
+    + rewrite IH by auto. destruct (L rest); reflexivity.
+    + destruct r; [exact Hr | reflexivity].
+    + destruct r; [exact Hq | reflexivity].
+Qed.
+
+Lemma L_dotted : forall x attrs rest, good_name x = true -> forallb good_name attrs = true ->
+  hd_is is_word rest = false -> hd_is is_quote rest = false ->
+  L (x ++ dots attrs ++ rest) = option_map (app (dotted_toks x attrs)) (L rest).
+Proof.
+  intros x attrs rest Hx Hat Hr Hq. rewrite L_good; auto.
+  - rewrite L_dots by auto. unfold dotted_toks. destruct (L rest); reflexivity.
+  - destruct attrs; [exact Hr | reflexivity].
+  - destruct attrs; [exact Hq | reflexivity].
+Qed.
+
+Lemma hd_is_weaken : forall (p q : N -> bool) s, (forall c, q c = true -> p c = true) ->
+  hd_is p s = false -> hd_is q s = false.
+Proof.
+  intros p q s H Hp. destruct s as [|c s]; auto. simpl in *. destruct (q c) eqn:E; auto.
+  apply H in E. congruence.
+Qed.
+
+Lemma L_int : forall ds rest, digits_ok ds = true ->
+  hd_is is_word rest = false -> hd_is (N.eqb 46) rest = false ->
+  L (ds ++ rest) = option_map (cons (TInt ds)) (L rest).
+Proof.
+  intros ds rest H Hr Hd. unfold digits_ok in H. apply andb_true_iff in H. destruct H as [H Hz].
+  apply andb_true_iff in H. destruct H as [Hne Hds]. apply negb_true_iff in Hz.
+  destruct ds as [|d ds]; [discriminate|]. cbn [forallb] in Hds.
+  apply andb_true_iff in Hds. destruct Hds as [Hd1 Hds].
+  cbn [app]. apply L_tok.
+  - apply (word_char_facts d). apply digit_is_word; auto.
+  - unfold py_lex_one. rewrite (digit_not_alpha d Hd1), Hd1. unfold lex_int.
+    change (d :: ds ++ rest) with ((d :: ds) ++ rest).
+    rewrite span_all.
+    + rewrite Hr, Hd, Hz. reflexivity.
+    + simpl. rewrite Hd1, Hds. reflexivity.
+    + apply (hd_is_weaken is_word); auto. apply digit_is_word.
+Qed.
+
+Lemma lit_char_facts : forall c, lit_char c = true ->
+  (c =? 34) = false /\ (c =? 39) = false /\ (c =? 92) = false /\ (c =? 10) = false.
+Proof.
+  intros c H. repeat split.
+  - destruct (c =? 34) eqn:E; auto. apply N.eqb_eq in E. subst. discriminate.
+  - destruct (c =? 39) eqn:E; auto. apply N.eqb_eq in E. subst. discriminate.
+  - destruct (c =? 92) eqn:E; auto. apply N.eqb_eq in E. subst. discriminate.
+  - destruct (c =? 10) eqn:E; auto. apply N.eqb_eq in E. subst. discriminate.
+Qed.
+
+Lemma L_str : forall dq s rest, forallb lit_char s = true ->
+  L (quote_of dq :: s ++ quote_of dq :: rest) = option_map (cons (TStr dq s)) (L rest).
+Proof.
+  intros dq s rest H. apply L_tok; [destruct dq; reflexivity|].
+  unfold py_lex_one.
+  replace (is_alpha (quote_of dq)) with false by (destruct dq; reflexivity).
+  replace (is_digit (quote_of dq)) with false by (destruct dq; reflexivity).
+  replace (is_quote (quote_of dq)) with true by (destruct dq; reflexivity).
+  unfold lex_string. rewrite span_all.
+  - replace (forallb (fun c => negb ((c =? 92) || (c =? 10))) s) with true.
+    + destruct dq; reflexivity.
+    + symmetry. rewrite forallb_forall in *. intros c Hc. specialize (H c Hc).
+      destruct (lit_char_facts c H) as (_ & _ & -> & ->). reflexivity.
+  - rewrite forallb_forall in *. intros c Hc. specialize (H c Hc).
+    destruct (lit_char_facts c H) as (E1 & E2 & _). destruct dq; simpl; rewrite ?E1, ?E2; reflexivity.
+  - simpl. rewrite N.eqb_refl. reflexivity.
+Qed.
+
+(* ---- every Python-side token *)
+Definition py_tok (t : tok) : bool :=
+  match t with
+  | TCmp _ | TIn | TLP | TRP | TLB | TRB | TComma | TStr _ _ | TInt _ | TId _ | TDotted _ _
+  | TKAnd | TKOr | TKNot => true
+  | _ => false
+  end.
+
+Definition sepcond (t : tok) (rest : str) : Prop :=
+  (ends_word t = true ->
+     hd_is is_word rest = false /\ hd_is is_quote rest = false /\ hd_is (N.eqb 46) rest = false)
+  /\ (is_cmp t = true -> hd_is cmpchar rest = false).
+
+Lemma hd_cmpchar_eq : forall rest, hd_is cmpchar rest = false -> hd_is (N.eqb 61) rest = false.
+Proof.
+  intros. apply (hd_is_weaken cmpchar); auto. intros c E. apply N.eqb_eq in E. subst. reflexivity.
+Qed.
+Lemma hd_cmpchar_bad : forall rest, hd_is cmpchar rest = false ->
+  hd_is (fun d => (d =? 60) || (d =? 62)) rest = false.
+Proof.
+  intros. apply (hd_is_weaken cmpchar); auto. intros c E. unfold cmpchar.
+  apply orb_true_iff in E. destruct E as [E|E]; rewrite E; auto using orb_true_r.
+  rewrite orb_true_r. reflexivity.
+Qed.
+
+Lemma L_text : forall rs ps t rest, wf_tok rs ps t = true -> py_tok t = true -> sepcond t rest ->
+  L (text t ++ rest) = option_map (app (tr t)) (L rest).
+Proof.
+  intros rs ps t rest Hwf Hpy [Hw Hc].
+  assert (Hone : forall c tk, L (c :: rest) = option_map (cons tk) (L rest) ->
+                 L ([c] ++ rest) = option_map (app [tk]) (L rest)).
+  { intros c tk E. cbn [app]. rewrite E. destruct (L rest); reflexivity. }
+  destruct t; try discriminate Hpy; cbn [text tr].
+  - (* TCmp *)
+    specialize (Hc eq_refl). pose proof (hd_cmpchar_eq _ Hc) as He. pose proof (hd_cmpchar_bad _ Hc) as Hb.
+    destruct c; cbn [app].
+    + rewrite (L_tok 61 (61 :: rest) (TCmp CEq) rest) by reflexivity. destruct (L rest); reflexivity.
+    + rewrite (L_tok 33 (61 :: rest) (TCmp CNe) rest) by reflexivity. destruct (L rest); reflexivity.
+    + rewrite (L_tok 60 rest (TCmp CLt) rest); [destruct (L rest); reflexivity | reflexivity |].
+      unfold py_lex_one. cbn. unfold lex_op. cbn. rewrite He, Hb. reflexivity.
+    + rewrite (L_tok 60 (61 :: rest) (TCmp CLe) rest) by reflexivity. destruct (L rest); reflexivity.
+    + rewrite (L_tok 62 rest (TCmp CGt) rest); [destruct (L rest); reflexivity | reflexivity |].
+      unfold py_lex_one. cbn. unfold lex_op. cbn. rewrite He, Hb. reflexivity.
+    + rewrite (L_tok 62 (61 :: rest) (TCmp CGe) rest) by reflexivity. destruct (L rest); reflexivity.
+  - (* TIn *)
+    destruct (Hw eq_refl) as (H1 & H2 & _).
+    rewrite (L_word [105; 110] rest) by auto. destruct (L rest); reflexivity.
+  - apply Hone. apply L_tok; reflexivity.
+  - apply Hone. apply L_tok; reflexivity.
+  - apply Hone. apply L_tok; reflexivity.
+  - apply Hone. apply L_tok; reflexivity.
+  - apply Hone. apply L_tok; reflexivity.
+  - (* TStr *)
+    simpl in Hwf. unfold lit_ok in Hwf. apply andb_true_iff in Hwf. destruct Hwf as [Hwf _].
+    apply andb_true_iff in Hwf. destruct Hwf as [Hl _].
+    cbn [app]. rewrite <- app_assoc. cbn [app]. rewrite L_str by auto. destruct (L rest); reflexivity.
+  - (* TInt *)
+    destruct (Hw eq_refl) as (H1 & _ & H3). rewrite L_int by auto. destruct (L rest); reflexivity.
+  - (* TId *)
+    destruct (Hw eq_refl) as (H1 & H2 & _). rewrite L_good by auto. destruct (L rest); reflexivity.
+  - (* TDotted *)
+    destruct (Hw eq_refl) as (H1 & H2 & _). simpl in Hwf. apply andb_true_iff in Hwf.
+    destruct Hwf as [Hx Hat]. rewrite <- app_assoc. apply L_dotted; auto.
+  - destruct (Hw eq_refl) as (H1 & H2 & _).
+    rewrite (L_word [97; 110; 100] rest) by auto. destruct (L rest); reflexivity.
+  - destruct (Hw eq_refl) as (H1 & H2 & _).
+    rewrite (L_word [111; 114] rest) by auto. destruct (L rest); reflexivity.
+  - destruct (Hw eq_refl) as (H1 & H2 & _).
+    rewrite (L_word [110; 111; 116] rest) by auto. destruct (L rest); reflexivity.
+Qed.
+
+(* ---- first characters of token texts *)
+Lemma hd_text_facts : forall rs ps t, wf_tok rs ps t = true ->
+  hd_is is_word (text t) = starts_word t /\ hd_is is_quote (text t) = starts_quote t
+  /\ hd_is (N.eqb 46) (text t) = false /\ (hd_is cmpchar (text t) = true -> is_cmp t = true)
+  /\ hd_is is_space (text t) = false.
+Proof.
+  intros rs ps t H.
+  assert (Hword : forall s, hd_is is_word s = true ->
+            hd_is is_word s = true /\ hd_is is_quote s = false /\ hd_is (N.eqb 46) s = false
+            /\ (hd_is cmpchar s = true -> False) /\ hd_is is_space s = false).
+  { intros s Hs. destruct s as [|c s]; [discriminate|]. cbn [hd_is] in *.
+    destruct (word_char_facts c Hs) as (_ & Hq & Hd & Hcm & _ & Hsp). rewrite (N.eqb_sym 46 c), Hq, Hd, Hcm, Hsp.
+    repeat split; auto. discriminate. }
+  assert (Hgood : forall s, good_name s = true -> hd_is is_word s = true).
+  { intros s Hs. destruct (good_name_facts _ Hs) as (_ & _ & Ha & _).
+    destruct s as [|c s]; [discriminate|]. cbn [hd_is] in *. apply alpha_is_word; auto. }
+  destruct t; cbn [text starts_word starts_quote is_cmp]; try discriminate H;
+    try (repeat split; try reflexivity; intro; discriminate).
+  - destruct c; repeat split; reflexivity.
+  - destruct dq; repeat split; try reflexivity; intro; discriminate.
+  - simpl in H. unfold digits_ok in H. apply andb_true_iff in H. destruct H as [H _].
+    apply andb_true_iff in H. destruct H as [Hne Hd]. destruct ds as [|d ds]; [discriminate|].
+    cbn [forallb] in Hd. apply andb_true_iff in Hd. destruct Hd as [Hd _].
+    destruct (Hword (d :: ds)) as (A & B & C & D & E); [cbn; apply digit_is_word; auto|].
+    repeat split; auto; try (intro X; destruct (D X)).
+  - simpl in H. destruct (Hword s (Hgood s H)) as (A & B & C & D & E).
+    repeat split; auto; try (intro X; destruct (D X)).
+  - simpl in H. apply andb_true_iff in H. destruct H as [Hx _].
+    pose proof (Hgood x Hx) as Hh. destruct x as [|c x]; [discriminate|].
+    destruct (Hword (c :: x ++ dots attrs)) as (A & B & C & D & E); [exact Hh|].
+    cbn [app]. repeat split; auto; try (intro X; destruct (D X)).
+Qed.
+
+Lemma hd_blank_facts : forall b rest, forallb is_blank b = true -> b <> [] ->
+  hd_is is_word (b ++ rest) = false /\ hd_is is_quote (b ++ rest) = false
+  /\ hd_is (N.eqb 46) (b ++ rest) = false /\ hd_is cmpchar (b ++ rest) = false.
+Proof.
+  intros b rest H Hne. destruct b as [|c b]; [congruence|]. cbn [app hd_is].
+  cbn [forallb] in H. apply andb_true_iff in H. destruct H as [Hc _].
+  apply blank_cases in Hc. destruct Hc; subst; repeat split; reflexivity.
+Qed.
+
+Lemma sep_from_adm : forall rs ps a t b pcs,
+  adm ((a, t, b) :: pcs) = true -> forallb (wf_tok rs ps) (toks pcs) = true ->
+  sepcond t (b ++ render_pieces pcs).
+Proof.
+  intros rs ps a t b pcs Hadm Hwf.
+  destruct (adm_cons _ _ _ _ Hadm) as (Ha & Hb & Hr & Hgap).
+  destruct b as [|c b].
+  2:{ destruct (hd_blank_facts (c :: b) (render_pieces pcs) Hb) as (A & B & C & D); [discriminate|].
+      split; intros; auto. }
+  cbn [app]. destruct pcs as [|[[a' t'] b'] r].
+  { split; intros; repeat split; reflexivity. }
+  rewrite render_cons. destruct (adm_cons _ _ _ _ Hr) as (Ha' & _).
+  destruct a' as [|c a'].
+  2:{ destruct (hd_blank_facts (c :: a') (text t' ++ b' ++ render_pieces r) Ha') as (A & B & C & D);
+        [discriminate|]. split; intros; auto. }
+  cbn [app]. cbn [toks map tok_of fst snd forallb] in Hwf. apply andb_true_iff in Hwf. destruct Hwf as [Hwt _].
+  pose proof (text_nonempty rs ps t' Hwt) as Hne.
+  unfold sepcond. rewrite !hd_is_app_nonempty by auto.
+  destruct (hd_text_facts rs ps t' Hwt) as (A & B & C & D & _).
+  unfold gap_ok in Hgap. cbn [app nonempty orb] in Hgap.
+  apply andb_true_iff in Hgap. destruct Hgap as [G1 G2].
+  split.
+  - intro Hew. rewrite Hew in G1. cbn [andb] in G1. apply negb_true_iff in G1.
+    apply orb_false_iff in G1. destruct G1 as [G1a G1b]. rewrite A, B, C. auto.
+  - intro Hcm. assert (Hop : opish t = true) by (destruct t; auto; discriminate).
+    rewrite Hop in G2. cbn [andb] in G2. apply negb_true_iff in G2.
+    destruct (hd_is cmpchar (text t')) eqn:E; auto. rewrite (D eq_refl) in G2. discriminate.
+Qed.
+
+Theorem lex_render : forall rs ps pcs,
+  adm pcs = true -> forallb (wf_tok rs ps) (toks pcs) = true -> forallb py_tok (toks pcs) = true ->
+  L (render_pieces pcs) = Some (flat_map tr (toks pcs)).
+Proof.
+  intros rs ps. induction pcs as [|[[a t] b] pcs IH]; intros Hadm Hwf Hpy.
+  - reflexivity.
+  - pose proof (sep_from_adm rs ps a t b pcs Hadm) as Hsep.
+    cbn [toks map tok_of fst snd forallb] in *. apply andb_true_iff in Hwf. destruct Hwf as [Hwt Hwf].
+    apply andb_true_iff in Hpy. destruct Hpy as [Hpt Hpy].
+    destruct (adm_cons _ _ _ _ Hadm) as (Ha & Hb & Hr & Hgap).
+    rewrite render_cons. rewrite L_blanks by auto.
+    rewrite (L_text rs ps) by auto.
+    rewrite L_blanks by auto. unfold toks in IH. rewrite IH by auto. reflexivity.
+Qed.
+
+(* ====================================================================== str.strip() on rendered pieces *)
+Lemma drop_while_app : forall p x s, forallb p x = true -> hd_is p s = false ->
+  drop_while p (x ++ s) = s.
+Proof.
+  induction x as [|c x IH]; simpl; intros s H Hs.
+  - destruct s as [|d s]; auto. simpl in *. rewrite Hs. reflexivity.
+  - apply andb_true_iff in H. destruct H as [Hc Hx]. rewrite Hc. apply IH; auto.
+Qed.
+
+Lemma forallb_rev : forall {A} (p : A -> bool) l, forallb p (rev l) = forallb p l.
+Proof.
+  induction l as [|x l IH]; simpl; auto. rewrite forallb_app_iff, IH. simpl.
+  rewrite andb_true_r. apply andb_comm.
+Qed.
+
+Lemma lastc_rev : forall M p, lastc M p = match rev M with d :: _ => Some d | [] => p end.
+Proof.
+  induction M as [|c M IH]; intros p; simpl; auto.
+  rewrite IH. destruct (rev M); reflexivity.
+Qed.
+
+Lemma strip_spec : forall x M y d, forallb is_space x = true -> forallb is_space y = true ->
+  hd_is is_space M = false -> lastc M None = Some d -> is_space d = false ->
+  strip (x ++ M ++ y) = M.
+Proof.
+  intros x M y d Hx Hy Hh Hl Hd. unfold strip.
+  assert (Hne : M <> []) by (destruct M; [discriminate Hl | discriminate]).
+  rewrite drop_while_app; auto.
+  2:{ rewrite hd_is_app_nonempty; auto. }
+  rewrite rev_app_distr. rewrite drop_while_app.
+  - apply rev_involutive.
+  - rewrite forallb_rev. exact Hy.
+  - rewrite lastc_rev in Hl. destruct (rev M) as [|e l]; [discriminate|].
+    inversion Hl; subst. exact Hd.
+Qed.
+
+Definition trimL (pcs : list piece) : list piece :=
+  match pcs with (a, t, b) :: r => ([], t, b) :: r | [] => [] end.
+Fixpoint trimR (pcs : list piece) : list piece :=
+  match pcs with
+  | [] => []
+  | [(a, t, b)] => [(a, t, [])]
+  | p :: r => p :: trimR r
+  end.
+Fixpoint last_post (pcs : list piece) : str :=
+  match pcs with
+  | [] => []
+  | [(a, t, b)] => b
+  | p :: r => last_post r
+  end.
+
+Lemma render_trimR : forall pcs, render_pieces pcs = render_pieces (trimR pcs) ++ last_post pcs.
+Proof.
+  induction pcs as [|[[a t] b] pcs IH]; auto.
+  destruct pcs as [|p r].
+  - cbn [trimR last_post]. rewrite !render_cons. unfold render_pieces. simpl.
+    rewrite <- !app_assoc. rewrite !app_nil_r. reflexivity.
+  - change (trimR ((a, t, b) :: p :: r)) with ((a, t, b) :: trimR (p :: r)).
+    change (last_post ((a, t, b) :: p :: r)) with (last_post (p :: r)).
+    rewrite !render_cons. rewrite IH. rewrite <- !app_assoc. reflexivity.
+Qed.
+
+Lemma toks_trimR : forall pcs, toks (trimR pcs) = toks pcs.
+Proof.
+  induction pcs as [|[[a t] b] pcs IH]; auto. destruct pcs as [|p r]; auto.
+  change (trimR ((a, t, b) :: p :: r)) with ((a, t, b) :: trimR (p :: r)).
+  unfold toks in *. cbn [map]. rewrite IH. reflexivity.
+Qed.
+
+Lemma last_post_blank : forall pcs, adm pcs = true -> forallb is_blank (last_post pcs) = true.
+Proof.
+  induction pcs as [|[[a t] b] pcs IH]; auto. intro H.
+  destruct (adm_cons _ _ _ _ H) as (Ha & Hb & Hr & _).
+  destruct pcs as [|p r]; auto.
+Qed.
+
+Lemma adm_trimR : forall pcs, adm pcs = true -> adm (trimR pcs) = true.
+Proof.
+  induction pcs as [|[[a t] b] pcs IH]; auto. intro H.
+  destruct (adm_cons _ _ _ _ H) as (Ha & Hb & Hr & Hg).
+  destruct pcs as [|[[a' t'] b'] r].
+  - cbn [trimR]. apply adm_intro; auto.
+  - change (trimR ((a, t, b) :: (a', t', b') :: r)) with ((a, t, b) :: trimR ((a', t', b') :: r)).
+    specialize (IH Hr). apply adm_intro; auto.
+    destruct r as [|p r']; cbn [trimR]; auto.
+Qed.
+
+Lemma trimR_last : forall rs ps pcs p, pcs <> [] -> forallb (wf_tok rs ps) (toks pcs) = true ->
+  exists t, wf_tok rs ps t = true
+            /\ lastc (render_pieces (trimR pcs)) p = lastc (text t) None.
+Proof.
+  intros rs ps. induction pcs as [|[[a t] b] pcs IH]; intros p Hne Hwf; [congruence|].
+  cbn [toks map tok_of fst snd forallb] in Hwf. apply andb_true_iff in Hwf. destruct Hwf as [Hwt Hwf].
+  destruct pcs as [|q r].
+  - exists t. split; auto. cbn [trimR]. rewrite render_cons. norm_lastc.
+    unfold render_pieces. cbn [flat_map lastc]. apply lastc_nonempty. eapply text_nonempty; eauto.
+  - change (trimR ((a, t, b) :: q :: r)) with ((a, t, b) :: trimR (q :: r)).
+    rewrite render_cons. norm_lastc. apply IH; auto. discriminate.
+Qed.
+
+Lemma lastc_text_nonspace : forall rs ps t, wf_tok rs ps t = true ->
+  exists d, lastc (text t) None = Some d /\ is_space d = false.
+Proof.
+  intros rs ps t H.
+  destruct (ends_word t) eqn:E.
+  - pose proof (ends_word_spec rs ps t None H) as Hs. rewrite E in Hs.
+    destruct (lastc (text t) None) as [d|]; [|discriminate]. exists d. split; auto.
+    apply (word_char_facts d). exact Hs.
+  - destruct t; try discriminate E; try discriminate H; cbn [text];
+      try (eexists; split; [reflexivity | reflexivity]).
+    + destruct c; eexists; split; reflexivity.
+    + norm_lastc. eexists; split; reflexivity.
+    + norm_lastc. destruct dq; eexists; split; reflexivity.
+    + norm_lastc. eexists; split; reflexivity.
+Qed.
+
+Theorem strip_render : forall rs ps pcs, pcs <> [] ->
+  adm pcs = true -> forallb (wf_tok rs ps) (toks pcs) = true ->
+  strip (render_pieces pcs) = render_pieces (trimL (trimR pcs))
+  /\ render_pieces (trimL (trimR pcs)) <> []
+  /\ adm (trimL (trimR pcs)) = true /\ toks (trimL (trimR pcs)) = toks pcs.
+Proof.
+  intros rs ps pcs Hne Hadm Hwf.
+  pose proof (adm_trimR _ Hadm) as HadmR.
+  pose proof (toks_trimR pcs) as HtR.
+  destruct (trimR_last rs ps pcs None Hne Hwf) as (tl & Hwl & Hlast).
+  destruct (trimR pcs) as [|[[a t] b] r] eqn:ER.
+  { destruct pcs as [|[[a t] b] [|q r]]; [congruence | discriminate ER | discriminate ER]. }
+  cbn [trimL].
+  destruct (adm_cons _ _ _ _ HadmR) as (Ha & Hb & Hr & Hg).
+  assert (Hwt : wf_tok rs ps t = true).
+  { rewrite <- HtR in Hwf. cbn [toks map tok_of fst snd forallb] in Hwf.
+    apply andb_true_iff in Hwf. destruct Hwf; auto. }
+  destruct (lastc_text_nonspace rs ps tl Hwl) as (d & Hd1 & Hd2).
+  repeat split.
+  - rewrite render_trimR, ER. rewrite !render_cons. rewrite <- app_assoc. cbn [app].
+    apply (strip_spec a _ _ d).
+    + rewrite forallb_forall in *. intros c Hc. apply blank_is_space. auto.
+    + pose proof (last_post_blank _ Hadm) as Hlp. rewrite forallb_forall in *.
+      intros c Hc. apply blank_is_space. auto.
+    + rewrite hd_is_app_nonempty by (eapply text_nonempty; eauto).
+      apply (hd_text_facts rs ps t Hwt).
+    + rewrite render_cons in Hlast. rewrite lastc_app in Hlast.
+      rewrite <- Hd1, <- Hlast. apply lastc_nonempty.
+      pose proof (text_nonempty rs ps t Hwt). destruct (text t); [congruence | discriminate].
+    + exact Hd2.
+  - rewrite render_cons. cbn [app]. pose proof (text_nonempty rs ps t Hwt).
+    destruct (text t); [congruence | discriminate].
+  - apply adm_intro; auto.
+  - rewrite <- HtR. reflexivity.
+Qed.
+
+(* ====================================================================== assembling the pipeline *)
+Lemma text_no_hash : forall rs ps t, forallb is_digit rs = true -> forallb is_digit ps = true ->
+  wf_tok rs ps t = true -> forallb (fun c => negb (c =? 35)) (text t) = true.
+Proof.
+  intros rs ps t Hrs Hps H. destruct (op_tok t) eqn:E.
+  - destruct t; try discriminate E; try reflexivity. destruct c; try discriminate E; reflexivity.
+  - apply plain_no; [reflexivity|]. apply (text_plain rs ps); auto.
+Qed.
+
+Lemma render_no_hash : forall rs ps pcs, forallb is_digit rs = true -> forallb is_digit ps = true ->
+  adm pcs = true -> forallb (wf_tok rs ps) (toks pcs) = true ->
+  forallb (fun c => negb (c =? 35)) (render_pieces pcs) = true.
+Proof.
+  intros rs ps pcs Hrs Hps. induction pcs as [|[[a t] b] pcs IH]; intros Hadm Hwf; auto.
+  cbn [toks map tok_of fst snd forallb] in Hwf. apply andb_true_iff in Hwf. destruct Hwf as [Hwt Hwf].
+  destruct (adm_cons _ _ _ _ Hadm) as (Ha & Hb & Hr & _).
+  rewrite render_cons. rewrite !forallb_app_iff.
+  rewrite (text_no_hash rs ps t), IH by auto.
+  rewrite !(plain_no 35) by (auto using plain_blanks). reflexivity.
+Qed.
+
+Lemma find_char_none : forall c s, forallb (fun x => negb (x =? c)) s = true -> find_char c s = None.
+Proof.
+  induction s as [|x s IH]; simpl; auto. intro H. apply andb_true_iff in H. destruct H as [Hx Hs].
+  apply negb_true_iff in Hx. rewrite Hx. rewrite IH; auto.
+Qed.
+
+Lemma find_char_at : forall c s r, forallb (fun x => negb (x =? c)) s = true ->
+  find_char c (s ++ c :: r) = Some (length s).
+Proof.
+  induction s as [|x s IH]; simpl; intros r H.
+  - rewrite N.eqb_refl. reflexivity.
+  - apply andb_true_iff in H. destruct H as [Hx Hs]. apply negb_true_iff in Hx. rewrite Hx.
+    rewrite IH; auto.
+Qed.
+
+Lemma toks_pad : forall sel kw pcs,
+  toks (map (pad_piece sel kw) pcs) = map (fun t => if sel t then kw else t) (toks pcs).
+Proof.
+  induction pcs as [|[[a t] b] pcs IH]; auto. unfold toks in *. cbn [map]. rewrite IH.
+  unfold pad_piece, tok_of. cbn [fst snd]. destruct (sel t); reflexivity.
+Qed.
+
+Lemma toks_kw : forall pcs, toks (kw_pieces pcs) = map kw_tok (toks pcs).
+Proof.
+  intros. unfold kw_pieces. rewrite !toks_pad. rewrite !map_map. apply map_ext.
+  intro t. destruct t; reflexivity.
+Qed.
+
+Lemma toks_esc : forall pcs, toks (esc_pieces pcs) = map esc_tok (toks pcs).
+Proof. intros. unfold esc_pieces. apply toks_map_pm. Qed.
+
+Lemma final_py : forall t, casbin_tok t = true -> eval_tok t = false ->
+  py_tok (kw_tok (esc_tok t)) = true.
+Proof. intros t H1 H2. destruct t; try discriminate; reflexivity. Qed.
+
+Lemma final_tr : forall t, casbin_tok t = true -> tr (kw_tok (esc_tok t)) = tr t.
+Proof. intros t H. destruct t; try discriminate; reflexivity. Qed.
+
+Lemma flat_map_tr_final : forall ts, forallb casbin_tok ts = true ->
+  flat_map tr (map kw_tok (map esc_tok ts)) = flat_map tr ts.
+Proof.
+  induction ts as [|t ts IH]; simpl; auto. intro H. apply andb_true_iff in H. destruct H as [Ht Hts].
+  rewrite final_tr, IH; auto.
+Qed.
+
+Lemma esc_tok_classes : forall t,
+  starts_word (esc_tok t) = starts_word t /\ ends_word (esc_tok t) = ends_word t
+  /\ starts_quote (esc_tok t) = starts_quote t /\ is_cmp (esc_tok t) = is_cmp t
+  /\ opish (esc_tok t) = opish t.
+Proof. intro t. destruct t; simpl; auto. Qed.
+
+Lemma wf_esc_pieces : forall rs ps pcs, forallb is_digit rs = true -> forallb is_digit ps = true ->
+  forallb (wf_tok rs ps) (toks pcs) = true -> forallb (wf_tok rs ps) (toks (esc_pieces pcs)) = true.
+Proof.
+  intros. rewrite esc_pieces_eq. apply wf_map; auto. apply wf_map; auto.
+Qed.
+
+Lemma adm_kw : forall pcs, adm pcs = true -> adm (kw_pieces pcs) = true.
+Proof. intros. unfold kw_pieces. repeat apply adm_pad; auto. Qed.
+
+Lemma wf_kw : forall rs ps pcs, forallb (wf_tok rs ps) (toks pcs) = true ->
+  forallb (wf_tok rs ps) (toks (kw_pieces pcs)) = true.
+Proof. intros. unfold kw_pieces. repeat apply wf_pad; auto. Qed.
+
+(* any admissible, well-formed, already escaped piece list: the three rewrites + strip + py_lex *)
+Theorem expression_tokens : forall rs ps pcs,
+  forallb is_digit rs = true -> forallb is_digit ps = true -> pcs <> [] ->
+  adm pcs = true -> forallb (wf_tok rs ps) (toks pcs) = true ->
+  forallb py_tok (map kw_tok (toks pcs)) = true ->
+  py_tokens (get_expression (render_pieces pcs)) = Some (flat_map tr (map kw_tok (toks pcs))).
+Proof.
+  intros rs ps pcs Hrs Hps Hne Hadm Hwf Hpy.
+  rewrite (get_expression_render rs ps) by auto.
+  assert (Hne' : kw_pieces pcs <> []).
+  { unfold kw_pieces. destruct pcs; [congruence|]. discriminate. }
+  destruct (strip_render rs ps (kw_pieces pcs) Hne' (adm_kw _ Hadm) (wf_kw rs ps _ Hwf))
+    as (Hs & Hn & Ha & Ht).
+  unfold py_tokens. rewrite Hs.
+  destruct (render_pieces (trimL (trimR (kw_pieces pcs)))) eqn:E; [congruence|].
+  rewrite <- E. change py_lex with L.
+  rewrite (lex_render rs ps); auto.
+  - rewrite Ht, toks_kw. reflexivity.
+  - rewrite Ht. apply wf_kw; auto.
+  - rewrite Ht, toks_kw. exact Hpy.
+Qed.
+
+Lemma forallb_map : forall {A B} (f : A -> B) (p : B -> bool) l,
+  forallb p (map f l) = forallb (fun x => p (f x)) l.
+Proof. induction l; simpl; auto. rewrite IHl. reflexivity. Qed.
+
+Theorem pipeline_pieces : forall rs ps pcs,
+  forallb is_digit rs = true -> forallb is_digit ps = true -> pcs <> [] ->
+  adm pcs = true -> forallb (wf_tok rs ps) (toks pcs) = true ->
+  forallb casbin_tok (toks pcs) = true -> existsb eval_tok (toks pcs) = false ->
+  py_tokens (pipeline (render_pieces pcs)) = Some (flat_map tr (toks pcs)).
+Proof.
+  intros rs ps pcs Hrs Hps Hne Hadm Hwf Hcb Hev.
+  unfold pipeline, stored_value.
+  rewrite (escape_render rs ps) by auto.
+  assert (Ha2 : adm (esc_pieces pcs) = true).
+  { unfold esc_pieces. rewrite adm_pm; auto. apply esc_tok_classes. }
+  pose proof (wf_esc_pieces rs ps pcs Hrs Hps Hwf) as Hw2.
+  unfold remove_comments. rewrite find_char_none by (apply (render_no_hash rs ps); auto).
+  rewrite (expression_tokens rs ps); auto.
+  - rewrite toks_esc. rewrite flat_map_tr_final; auto.
+  - unfold esc_pieces. destruct pcs; [congruence | discriminate].
+  - rewrite toks_esc, !forallb_map. rewrite forallb_forall in *. intros t Ht.
+    apply final_py; auto.
+    destruct (eval_tok t) eqn:E; auto.
+    assert (X : existsb eval_tok (toks pcs) = true) by (apply existsb_exists; eauto). congruence.
+Qed.
+
+Lemma toks_mk_pieces : forall ts ws, length ws = length ts -> toks (mk_pieces ts ws) = ts.
+Proof.
+  induction ts as [|t ts IH]; intros ws H; destruct ws as [|w ws]; simpl in *; try discriminate; auto.
+  unfold toks, mk_pieces in *. cbn [combine map tok_of fst snd]. rewrite IH; auto.
+Qed.
+
+(* THE theorem, in the (token list, layout) form *)
+Theorem pipeline_tokens : forall rs ps ts ws,
+  ts <> [] -> wf_tokens rs ps ts = true -> existsb eval_tok ts = false ->
+  admissible ts ws = true ->
+  py_tokens (pipeline (render ts ws)) = Some (flat_map tr ts).
+Proof.
+  intros rs ps ts ws Hne Hwf Hev Hadm.
+  unfold wf_tokens in Hwf. apply andb_true_iff in Hwf. destruct Hwf as [Hwf Hts].
+  apply andb_true_iff in Hwf. destruct Hwf as [Hrs Hps].
+  unfold admissible in Hadm. apply andb_true_iff in Hadm. destruct Hadm as [Hlen Hadm].
+  apply Nat.eqb_eq in Hlen.
+  pose proof (toks_mk_pieces ts ws Hlen) as Ht.
+  unfold render. rewrite <- Ht at 2.
+  apply (pipeline_pieces rs ps); auto; rewrite ?Ht; auto.
+  - intro E. rewrite E in Ht. simpl in Ht. congruence.
+  - rewrite forallb_forall in *. intros t Hin. specialize (Hts t Hin).
+    apply andb_true_iff in Hts. destruct Hts; auto.
+  - rewrite forallb_forall in *. intros t Hin. specialize (Hts t Hin).
+    apply andb_true_iff in Hts. destruct Hts; auto.
+Qed.
+
+(* ====================================================================== trailing # comment *)
+Lemma firstn_exact : forall {A} (x y : list A), firstn (length x) (x ++ y) = x.
+Proof. induction x; simpl; intros; auto. rewrite IHx. reflexivity. Qed.
+
+Lemma toks_trim : forall pcs, toks (trimL (trimR pcs)) = toks pcs.
+Proof.
+  intros. rewrite <- (toks_trimR pcs). destruct (trimR pcs) as [|[[a t] b] r]; reflexivity.
+Qed.
+
+(* the value stored for   <expr> # comment   is the stripped, escaped <expr> *)
+Theorem stored_value_comment : forall rs ps pcs c,
+  forallb is_digit rs = true -> forallb is_digit ps = true -> pcs <> [] ->
+  adm pcs = true -> forallb (wf_tok rs ps) (toks pcs) = true ->
+  stored_value (render_pieces pcs ++ 35 :: c) = render_pieces (trimL (trimR (esc_pieces pcs))).
+Proof.
+  intros rs ps pcs c Hrs Hps Hne Hadm Hwf. unfold stored_value.
+  destruct (escape_render_comment rs ps pcs c Hrs Hps Hadm Hwf) as [c' E]. rewrite E.
+  assert (Ha2 : adm (esc_pieces pcs) = true).
+  { unfold esc_pieces. rewrite adm_pm; auto. apply esc_tok_classes. }
+  pose proof (wf_esc_pieces rs ps pcs Hrs Hps Hwf) as Hw2.
+  unfold remove_comments. rewrite find_char_at by (apply (render_no_hash rs ps); auto).
+  rewrite firstn_exact.
+  apply (strip_render rs ps); auto.
+  unfold esc_pieces. destruct pcs; [congruence | discriminate].
+Qed.
+
+Theorem comment_pieces : forall rs ps pcs c,
+  forallb is_digit rs = true -> forallb is_digit ps = true -> pcs <> [] ->
+  adm pcs = true -> forallb (wf_tok rs ps) (toks pcs) = true ->
+  forallb casbin_tok (toks pcs) = true -> existsb eval_tok (toks pcs) = false ->
+  py_tokens (pipeline (render_pieces pcs ++ 35 :: c)) = Some (flat_map tr (toks pcs)).
+Proof.
+  intros rs ps pcs c Hrs Hps Hne Hadm Hwf Hcb Hev. unfold pipeline.
+  rewrite (stored_value_comment rs ps) by auto.
+  assert (Ha2 : adm (esc_pieces pcs) = true).
+  { unfold esc_pieces. rewrite adm_pm; auto. apply esc_tok_classes. }
+  pose proof (wf_esc_pieces rs ps pcs Hrs Hps Hwf) as Hw2.
+  assert (Hne2 : esc_pieces pcs <> []).
+  { unfold esc_pieces. destruct pcs; [congruence | discriminate]. }
+  destruct (strip_render rs ps (esc_pieces pcs) Hne2 Ha2 Hw2) as (_ & Hn & Ha3 & Ht3).
+  rewrite (expression_tokens rs ps); auto.
+  - rewrite Ht3, toks_esc. rewrite flat_map_tr_final; auto.
+  - intro E. rewrite E in Hn. apply Hn. reflexivity.
+  - rewrite Ht3. exact Hw2.
+  - rewrite Ht3, toks_esc, !forallb_map. rewrite forallb_forall in *. intros t Ht.
+    apply final_py; auto.
+    destruct (eval_tok t) eqn:E; auto.
+    assert (X : existsb eval_tok (toks pcs) = true) by (apply existsb_exists; eauto). congruence.
+Qed.
+
+Theorem comment_strip : forall rs ps ts ws c,
+  ts <> [] -> wf_tokens rs ps ts = true -> existsb eval_tok ts = false ->
+  admissible ts ws = true ->
+  py_tokens (pipeline (render ts ws ++ 35 :: c)) = Some (flat_map tr ts).
+Proof.
+  intros rs ps ts ws c Hne Hwf Hev Hadm.
+  unfold wf_tokens in Hwf. apply andb_true_iff in Hwf. destruct Hwf as [Hwf Hts].
+  apply andb_true_iff in Hwf. destruct Hwf as [Hrs Hps].
+  unfold admissible in Hadm. apply andb_true_iff in Hadm. destruct Hadm as [Hlen Hadm].
+  apply Nat.eqb_eq in Hlen.
+  pose proof (toks_mk_pieces ts ws Hlen) as Ht.
+  unfold render. rewrite <- Ht at 2.
+  apply (comment_pieces rs ps); auto; rewrite ?Ht; auto.
+  - intro E. rewrite E in Ht. simpl in Ht. congruence.
+  - rewrite forallb_forall in *. intros t Hin. specialize (Hts t Hin).
+    apply andb_true_iff in Hts. destruct Hts; auto.
+  - rewrite forallb_forall in *. intros t Hin. specialize (Hts t Hin).
+    apply andb_true_iff in Hts. destruct Hts; auto.
+Qed.
+
+(* ====================================================================== escape_assertion touches r. / p. only *)
+Lemma esc_tok_other : forall t,
+  match t with TReq _ _ _ | TPol _ _ | TEval _ _ => False | _ => True end -> esc_tok t = t.
+Proof. intros t H. destruct t; auto; contradiction. Qed.
+
+Theorem escape_only_rp : forall rs ps ts ws,
+  wf_tokens rs ps ts = true -> admissible ts ws = true ->
+  escape_assertion (render ts ws) = render (map esc_tok ts) ws.
+Proof.
+  intros rs ps ts ws Hwf Hadm.
+  unfold wf_tokens in Hwf. apply andb_true_iff in Hwf. destruct Hwf as [Hwf Hts].
+  apply andb_true_iff in Hwf. destruct Hwf as [Hrs Hps].
+  unfold admissible in Hadm. apply andb_true_iff in Hadm. destruct Hadm as [Hlen Hadm].
+  apply Nat.eqb_eq in Hlen. unfold render.
+  rewrite (escape_render rs ps); auto.
+  - f_equal. unfold esc_pieces, mk_pieces. clear. revert ws.
+    induction ts as [|t ts IH]; intros [|w ws]; simpl; auto. rewrite IH. reflexivity.
+  - rewrite toks_mk_pieces by auto. rewrite forallb_forall in *. intros t Hin.
+    specialize (Hts t Hin). apply andb_true_iff in Hts. destruct Hts; auto.
+Qed.
+
+(* ====================================================================== from the AST to the token hypotheses *)
+Section ExprInd.
+  Variable P : expr -> Prop.
+  Hypothesis H_or : forall a b, P a -> P b -> P (EOr a b).
+  Hypothesis H_and : forall a b, P a -> P b -> P (EAnd a b).
+  Hypothesis H_not : forall a, P a -> P (ENot a).
+  Hypothesis H_cmp : forall op a b, P a -> P b -> P (ECmp op a b).
+  Hypothesis H_in : forall a items brk, P a -> Forall P items -> P (EIn a items brk).
+  Hypothesis H_call : forall f args, Forall P args -> P (ECall f args).
+  Hypothesis H_eval : forall sfx f, P (EEval sfx f).
+  Hypothesis H_par : forall e, P e -> P (EPar e).
+  Hypothesis H_req : forall sfx f attrs, P (EReq sfx f attrs).
+  Hypothesis H_pol : forall sfx f, P (EPol sfx f).
+  Hypothesis H_var : forall x attrs, P (EVar x attrs).
+  Hypothesis H_str : forall dq s, P (EStr dq s).
+  Hypothesis H_int : forall ds, P (EInt ds).
+
+  Fixpoint expr_ind_nested (e : expr) : P e :=
+    let go := (fix go (l : list expr) : Forall P l :=
+                 match l with
+                 | [] => Forall_nil P
+                 | x :: r => Forall_cons x (expr_ind_nested x) (go r)
+                 end) in
+    match e with
+    | EOr a b => H_or a b (expr_ind_nested a) (expr_ind_nested b)
+    | EAnd a b => H_and a b (expr_ind_nested a) (expr_ind_nested b)
+    | ENot a => H_not a (expr_ind_nested a)
+    | ECmp op a b => H_cmp op a b (expr_ind_nested a) (expr_ind_nested b)
+    | EIn a items brk => H_in a items brk (expr_ind_nested a) (go items)
+    | ECall f args => H_call f args (go args)
+    | EEval sfx f => H_eval sfx f
+    | EPar e' => H_par e' (expr_ind_nested e')
+    | EReq sfx f attrs => H_req sfx f attrs
+    | EPol sfx f => H_pol sfx f
+    | EVar x attrs => H_var x attrs
+    | EStr dq s => H_str dq s
+    | EInt ds => H_int ds
+    end.
+End ExprInd.
+
+Definition tok_ok (rs ps : str) (t : tok) : bool := wf_tok rs ps t && casbin_tok t.
+
+Lemma sep_commas_ok : forall rs ps ls, Forall (fun l => forallb (tok_ok rs ps) l = true) ls ->
+  forallb (tok_ok rs ps) (sep_commas ls) = true.
+Proof.
+  intros rs ps ls H. induction H as [|l ls Hl Hls IH]; auto.
+  destruct ls as [|l2 ls']; [exact Hl|].
+  change (sep_commas (l :: l2 :: ls')) with (l ++ TComma :: sep_commas (l2 :: ls')).
+  rewrite forallb_app_iff, Hl. cbn [forallb]. rewrite IH. reflexivity.
+Qed.
+
+Lemma tokens_ok : forall rs ps e, names_ok rs ps e = true ->
+  forallb (tok_ok rs ps) (tokens_of e) = true.
+Proof.
+  intros rs ps. apply (expr_ind_nested (fun e => names_ok rs ps e = true ->
+                                           forallb (tok_ok rs ps) (tokens_of e) = true));
+    cbn [names_ok tokens_of]; intros.
+  - apply andb_true_iff in H1. destruct H1. rewrite forallb_app_iff. cbn [forallb]. rewrite H, H0; auto.
+  - apply andb_true_iff in H1. destruct H1. rewrite forallb_app_iff. cbn [forallb]. rewrite H, H0; auto.
+  - cbn [forallb]. rewrite H; auto.
+  - apply andb_true_iff in H1. destruct H1. rewrite forallb_app_iff. cbn [forallb]. rewrite H, H0; auto.
+  - apply andb_true_iff in H1. destruct H1 as [Ha Hi].
+    rewrite forallb_app_iff, H by auto. cbn [forallb andb].
+    assert (X : forallb (tok_ok rs ps) (sep_commas (map tokens_of items)) = true).
+    { apply sep_commas_ok. rewrite forallb_forall in Hi. rewrite Forall_forall in *.
+      intros l Hl. apply in_map_iff in Hl. destruct Hl as (x & <- & Hx). apply H0; auto. }
+    replace (tok_ok rs ps TIn) with true by reflexivity.
+    replace (tok_ok rs ps (if brk then TLB else TLP)) with true by (destruct brk; reflexivity).
+    cbn [andb]. rewrite forallb_app_iff, X. destruct brk; reflexivity.
+  - apply andb_true_iff in H0. destruct H0 as [Hf Ha]. cbn [forallb].
+    unfold tok_ok at 1. cbn [wf_tok casbin_tok]. rewrite Hf. cbn [andb].
+    replace (tok_ok rs ps TLP) with true by reflexivity. cbn [andb].
+    rewrite forallb_app_iff. rewrite sep_commas_ok; [reflexivity|].
+    rewrite forallb_forall in Ha. rewrite Forall_forall in *.
+    intros l Hl. apply in_map_iff in Hl. destruct Hl as (x & <- & Hx). apply H; auto.
+  - cbn [forallb]. unfold tok_ok. cbn [wf_tok casbin_tok]. rewrite H. reflexivity.
+  - cbn [forallb]. rewrite forallb_app_iff, H by auto. reflexivity.
+  - cbn [forallb]. unfold tok_ok. cbn [wf_tok casbin_tok]. rewrite H. reflexivity.
+  - cbn [forallb]. unfold tok_ok. cbn [wf_tok casbin_tok]. rewrite H. reflexivity.
+  - discriminate.
+  - cbn [forallb]. unfold tok_ok. cbn [wf_tok casbin_tok]. rewrite H. reflexivity.
+  - cbn [forallb]. unfold tok_ok. cbn [wf_tok casbin_tok]. rewrite H. reflexivity.
+Qed.
+
+Lemma sep_commas_eval : forall ls, Forall (fun l => existsb eval_tok l = false) ls ->
+  existsb eval_tok (sep_commas ls) = false.
+Proof.
+  intros ls H. induction H as [|l ls Hl Hls IH]; auto.
+  destruct ls as [|l2 ls']; [exact Hl|].
+  change (sep_commas (l :: l2 :: ls')) with (l ++ TComma :: sep_commas (l2 :: ls')).
+  rewrite existsb_app, Hl. cbn [existsb eval_tok orb]. exact IH.
+Qed.
+
+Lemma tokens_no_eval : forall e, has_eval_expr e = false -> existsb eval_tok (tokens_of e) = false.
+Proof.
+  apply (expr_ind_nested (fun e => has_eval_expr e = false -> existsb eval_tok (tokens_of e) = false));
+    cbn [has_eval_expr tokens_of]; intros; auto.
+  - apply orb_false_iff in H1. destruct H1. rewrite existsb_app. cbn [existsb eval_tok orb]. rewrite H, H0; auto.
+  - apply orb_false_iff in H1. destruct H1. rewrite existsb_app. cbn [existsb eval_tok orb]. rewrite H, H0; auto.
+  - apply orb_false_iff in H1. destruct H1. rewrite existsb_app. cbn [existsb eval_tok orb]. rewrite H, H0; auto.
+  - apply orb_false_iff in H1. destruct H1 as [Ha Hi]. rewrite existsb_app, H by auto.
+    cbn [existsb eval_tok orb].
+    replace (eval_tok (if brk then TLB else TLP)) with false by (destruct brk; reflexivity).
+    cbn [orb]. rewrite existsb_app. rewrite sep_commas_eval.
+    + destruct brk; reflexivity.
+    + rewrite Forall_forall in *. intros l Hl. apply in_map_iff in Hl. destruct Hl as (x & <- & Hx).
+      apply H0; auto. destruct (has_eval_expr x) eqn:E; auto.
+      assert (existsb has_eval_expr items = true) by (apply existsb_exists; eauto). congruence.
+  - cbn [existsb eval_tok orb]. rewrite existsb_app. rewrite sep_commas_eval; [reflexivity|].
+    rewrite Forall_forall in *. intros l Hl. apply in_map_iff in Hl. destruct Hl as (x & <- & Hx).
+    apply H; auto. destruct (has_eval_expr x) eqn:E; auto.
+    assert (existsb has_eval_expr args = true) by (apply existsb_exists; eauto). congruence.
+  - cbn [existsb eval_tok orb]. rewrite existsb_app, H by auto. reflexivity.
+Qed.
+
+Lemma tokens_nonempty : forall e, tokens_of e <> [].
+Proof.
+  induction e; cbn [tokens_of]; try discriminate;
+    try (intro X; apply app_eq_nil in X; destruct X as [_ X]; discriminate).
+Qed.
+
+(* pipeline_tokens for the tokens of an AST whose names and literals are well-formed *)
+Theorem pipeline_tokens_ast : forall rs ps e ws,
+  forallb is_digit rs = true -> forallb is_digit ps = true ->
+  names_ok rs ps e = true -> has_eval_expr e = false -> admissible (tokens_of e) ws = true ->
+  py_tokens (pipeline (render (tokens_of e) ws)) = Some (flat_map tr (tokens_of e)).
+Proof.
+  intros rs ps e ws Hrs Hps Hn He Ha.
+  apply (pipeline_tokens rs ps); auto.
+  - apply tokens_nonempty.
+  - unfold wf_tokens. rewrite Hrs, Hps. apply (tokens_ok rs ps e Hn).
+  - apply tokens_no_eval; auto.
+Qed.
+
+(* ====================================================================== Config: backslash continuations *)
+Definition last_is (c : N) (l : str) : bool := match rev l with x :: _ => x =? c | [] => false end.
+(* a physical line that is neither empty, nor a comment, nor taken for a section header *)
+Definition plain_line (raw : str) : bool :=
+  match strip raw with
+  | [] => false
+  | h :: _ => negb ((h =? 35) || (h =? 59)) && negb ((h =? 91) && last_is 93 (strip raw))
+  end.
+Definition seg_cont (raw : str) : str := strip (removelast (strip raw)) ++ [32].
+Definition with_buf (st : cfgst) (b : list str) (can : bool) : cfgst :=
+  {| c_sec := c_sec st; c_buf := b; c_can := can; c_data := c_data st |}.
+
+Lemma cfg_line_cont : forall st raw, c_can st = false -> plain_line raw = true ->
+  last_is 92 (strip raw) = true ->
+  cfg_line st raw = Ok (with_buf st (c_buf st ++ [seg_cont raw]) false).
+Proof.
+  intros st raw Hc Hp Hl. unfold cfg_line, plain_line, last_is in *. rewrite Hc. cbn [rbind].
+  destruct (strip raw) as [|h l] eqn:E; [discriminate|].
+  apply andb_true_iff in Hp. destruct Hp as [H1 H2]. apply negb_true_iff in H1, H2.
+  rewrite H1. destruct (rev (h :: l)) as [|x r] eqn:R; [discriminate|].
+  apply N.eqb_eq in Hl. subst x.
+  replace ((h =? 91) && (92 =? 93)) with false by (rewrite andb_false_r; reflexivity).
+  cbn [N.eqb Pos.eqb]. unfold with_buf, seg_cont. rewrite E, Hc. reflexivity.
+Qed.
+
+Lemma cfg_line_last : forall st raw, c_can st = false -> plain_line raw = true ->
+  last_is 92 (strip raw) = false ->
+  cfg_line st raw = Ok (with_buf st (c_buf st ++ [strip raw]) true).
+Proof.
+  intros st raw Hc Hp Hl. unfold cfg_line, plain_line, last_is in *. rewrite Hc. cbn [rbind].
+  destruct (strip raw) as [|h l] eqn:E; [discriminate|].
+  apply andb_true_iff in Hp. destruct Hp as [H1 H2]. apply negb_true_iff in H1, H2.
+  rewrite H1. destruct (rev (h :: l)) as [|x r] eqn:R.
+  - rewrite andb_false_r. reflexivity.
+  - rewrite H2, Hl. reflexivity.
+Qed.
+
+(* k continued lines and a last line leave in the buffer the stripped segments, each continued one
+   followed by exactly ONE blank; guard: no line is empty, comment-like or section-like *)
+Theorem continuation_join_partial : forall conts st last, c_can st = false ->
+  forallb (fun r => plain_line r && last_is 92 (strip r)) conts = true ->
+  plain_line last = true -> last_is 92 (strip last) = false ->
+  cfg_lines st (conts ++ [last])
+  = Ok (with_buf st (c_buf st ++ map seg_cont conts ++ [strip last]) true).
+Proof.
+  induction conts as [|r conts IH]; intros st last Hc Hall Hp Hl.
+  - cbn [app cfg_lines map]. rewrite cfg_line_last by auto. reflexivity.
+  - cbn [forallb] in Hall. apply andb_true_iff in Hall. destruct Hall as [Hr Hall].
+    apply andb_true_iff in Hr. destruct Hr as [Hr1 Hr2].
+    cbn [app cfg_lines map]. rewrite cfg_line_cont by auto. cbn [rbind].
+    rewrite IH by auto. unfold with_buf. cbn [c_sec c_buf c_data].
+    rewrite <- app_assoc. reflexivity.
+Qed.
+
+(* _write: option = text before the first '=', value = text after it, both stripped *)
+Lemma cfg_write_value : forall st o v, concat (c_buf st) = o ++ 61 :: v ->
+  forallb (fun c => negb (c =? 61)) o = true ->
+  cfg_write st = Ok {| c_sec := c_sec st; c_buf := []; c_can := c_can st;
+                       c_data := ((c_sec st, strip o), strip v) :: c_data st |}.
+Proof.
+  intros st o v E Ho. unfold cfg_write. rewrite E.
+  assert (S : split_first 61 (o ++ 61 :: v) = Some (o, v)).
+  { clear E. induction o as [|c o IH]; cbn [app split_first].
+    - reflexivity.
+    - cbn [forallb] in Ho. apply andb_true_iff in Ho. destruct Ho as [Hc Ho].
+      apply negb_true_iff in Hc. rewrite Hc, IH; auto. }
+  rewrite S. destruct (o ++ 61 :: v) eqn:X; [destruct o; discriminate|]. reflexivity.
+Qed.
+
+(* the guard is needed: a continued definition whose last line is a list literal is cut *)
+Definition refute_l1 : str := [109; 32; 61; 32; 114; 46; 111; 98; 106; 32; 105; 110; 32; 92].   (* m = r.obj in backslash *)
+Definition refute_l2 : str := [32; 32; 91; 49; 44; 32; 50; 93].   (*   [1, 2] *)
+Theorem continuation_join_refuted :
+  exists conts last,
+    forallb (fun r => plain_line r && last_is 92 (strip r)) conts = true
+    /\ last_is 92 (strip last) = false /\ plain_line last = false
+    /\ cfg_lines {| c_sec := []; c_buf := []; c_can := false; c_data := [] |} (conts ++ [last])
+       <> Ok {| c_sec := []; c_buf := map seg_cont conts ++ [strip last]; c_can := true; c_data := [] |}.
+Proof.
+  exists [refute_l1], refute_l2. repeat split; try (vm_compute; reflexivity).
+  vm_compute. intro H. discriminate H.
 Qed.
